@@ -634,6 +634,232 @@ func ruleOuterCompleteWaitsInner() check.Rule {
 	}
 }
 
+// completeIgnoredByDefinition: sites whose completion is, by the operator's definition, not the end of the output.
+var completeIgnoredByDefinition = map[string]string{
+	"ro.SkipUntil/signal": "the notifier only opens the gate; its completion says nothing about the source",
+	"ro.TakeUntil/signal": "the notifier only closes the gate with a value; its completion without a value leaves the source running",
+	"ro.ZipAll/sources":   "the outer observable only lists the inner ones; the zip of the inner observables completes the output (an empty list completes in the next slot)",
+}
+
+// endedElsewhere: state variables (function/variable) whose test legitimately lets a complete slot do nothing on one
+// side, because the state says that the output has already ended or will be ended by another callback.
+var endedElsewhere = map[string]string{
+	"TakeWhileIWithContext/skipping": "set when the predicate failed and Complete was sent from the next slot",
+	"RaceWith/won":                   "a source that lost the race is ignored",
+	"zipInnerSubscription/values":    "values are still queued: onUpdate completes the output when the queue is drained",
+}
+
+// TERMINAL-PROPAGATION: the completion of a source leads somewhere.
+func ruleTerminalPropagation() check.Rule {
+	return check.Rule{
+		Name:        "TERMINAL-PROPAGATION",
+		Doc:         "in the complete slot of every upstream subscribe site, every path does one of: send a terminal notification onwards (to the destination, or to the subject/observer the operator feeds), call a local closure or helper that can send one (completion counters), subscribe another source (concat, repeat, retry), or the site is listed as one whose completion the operator's definition ignores (a branch on one of the listed already-ended state variables may do nothing on one side): a complete slot that does none of these on some path leaves the output open for ever although its source has ended",
+		NeedControl: true,
+		Run: func(c *check.Ctx) {
+			m := c.M
+			for _, sc := range m.SCs {
+				armed := c.Armed(sc)
+				for _, s := range sc.SubSites {
+					if s.Observer == nil || s.Observer.Kind != model.AVObserver {
+						continue
+					}
+					c.Inc("complete_slots_checked", 1)
+					key := s.Key + "/complete"
+					if why, ok := completeIgnoredByDefinition[sc.String()+"/"+sourceParamName(s)]; ok {
+						if armed {
+							c.OK(key, s.Pos, "by definition: %s", why)
+						}
+						continue
+					}
+					slot := s.Observer.Slots[model.SlotComplete]
+					if slot == nil {
+						c.Report(armed, key, s.Pos, "this source is observed with a partial observer (%s) that ignores its completion", s.Observer.OCtor.Name)
+						continue
+					}
+					if slot.Kind != model.AVFunc || slot.Lit == nil {
+						if armed {
+							c.OK(key, s.Pos, "the complete slot is a method value or a named function (forwarder)")
+						}
+						continue
+					}
+					// nodes that count as "goes on": terminal emissions, subscribe sites and calls of closures/helpers that contain one
+					onward := map[ast.Node]bool{}
+					mark := func(r *model.Rec, n ast.Node) {
+						if r.Ctx != s.Src || r.Slot != model.SlotComplete {
+							return
+						}
+						onward[n] = true
+						for _, call := range r.Stack {
+							onward[call] = true
+						}
+					}
+					for _, e := range sc.Emits {
+						if e.Kind != model.EmitNext {
+							mark(&e.Rec, e.Node)
+						}
+					}
+					for _, s2 := range sc.SubSites {
+						mark(&s2.Rec, s2.Call)
+					}
+					for _, g := range sc.Gos {
+						mark(&g.Rec, g.Stmt)
+					}
+					for _, t := range sc.Timers {
+						mark(&t.Rec, t.Call)
+					}
+					isOnward := func(n ast.Node) bool {
+						found := false
+						ast.Inspect(n, func(x ast.Node) bool {
+							if onward[x] {
+								found = true
+							}
+							if _, isSend := x.(*ast.SendStmt); isSend {
+								found = true // handed to a queue (ToChannel, ObserveOn)
+							}
+							if l, ok := x.(*ast.FuncLit); ok && ast.Node(l) != n {
+								return false
+							}
+							return !found
+						})
+						return found
+					}
+					// every path from the entry of the slot to its exit passes an onward node
+					declName := model.DeclName(topDecl(m.EnclosingFuncs(s.Pkg, slot.Lit)))
+					readsState := func(cond ast.Node) bool {
+						found := false
+						ast.Inspect(cond, func(x ast.Node) bool {
+							if id, ok := x.(*ast.Ident); ok {
+								if v, ok := objOf(s.Pkg.TypesInfo, id).(*types.Var); ok && !v.IsField() {
+									if _, listed := endedElsewhere[declName+"/"+v.Name()]; listed && !(slot.Lit.Pos() <= v.Pos() && v.Pos() <= slot.Lit.End()) {
+										found = true
+									}
+								}
+							}
+							return !found
+						})
+						return found
+					}
+					if s.Src != nil && s.Src.Awaited {
+						if armed {
+							c.OK(key, s.Pos, "the subscription is awaited: the operator goes on after Wait returns")
+						}
+						continue
+					}
+					if everyPathPassesState(slot.Lit.Body, isOnward, readsState) {
+						if armed {
+							c.OK(key, s.Pos, "every path of the complete slot sends a terminal onwards, may do so through a closure, or subscribes another source")
+						}
+					} else {
+						c.Report(armed, key, slot.Lit.Pos(), "some path through the complete slot of this source neither sends a terminal notification onwards nor subscribes another source: when the source completes on that path the output stays open for ever")
+					}
+				}
+			}
+		},
+	}
+}
+
+// everyPathPassesState is everyPathPasses, except that at a two-way branch whose condition reads the operator's
+// state (a captured variable: "already ended", "queue drained", "I won") it is enough that one side passes: the other
+// side is the case in which the state says that the output has ended or will be ended by someone else.
+func everyPathPassesState(body *ast.BlockStmt, pred func(ast.Node) bool, readsState func(ast.Node) bool) bool {
+	g := cfg.New(body, func(*ast.CallExpr) bool { return true })
+	if len(g.Blocks) == 0 {
+		return false
+	}
+	memo := map[int32]int{} // 0 unknown, 1 in progress, 2 true, 3 false
+	var passes func(b *cfg.Block) bool
+	passes = func(b *cfg.Block) bool {
+		switch memo[b.Index] {
+		case 1:
+			return true // a loop back edge: judged by the other exits
+		case 2:
+			return true
+		case 3:
+			return false
+		}
+		memo[b.Index] = 1
+		res := false
+		done := false
+		for _, n := range b.Nodes {
+			if pred(n) {
+				res, done = true, true
+				break
+			}
+		}
+		if !done {
+			switch {
+			case len(b.Succs) == 0:
+				res = false
+				if len(b.Nodes) > 0 {
+					if es, isES := b.Nodes[len(b.Nodes)-1].(*ast.ExprStmt); isES {
+						if call, isCall := es.X.(*ast.CallExpr); isCall {
+							if id, isID := call.Fun.(*ast.Ident); isID && id.Name == "panic" {
+								res = true
+							}
+						}
+					}
+				}
+			case len(b.Succs) == 2 && len(b.Nodes) > 0 && readsState(b.Nodes[len(b.Nodes)-1]):
+				res = passes(b.Succs[0]) || passes(b.Succs[1])
+			default:
+				res = true
+				for _, sc := range b.Succs {
+					if !passes(sc) {
+						res = false
+					}
+				}
+			}
+		}
+		if res {
+			memo[b.Index] = 2
+		} else {
+			memo[b.Index] = 3
+		}
+		return res
+	}
+	return passes(g.Blocks[0])
+}
+
+// everyPathPasses: every path from the entry of body to a normal exit contains a node for which pred holds.
+func everyPathPasses(body *ast.BlockStmt, pred func(ast.Node) bool) bool {
+	g := cfg.New(body, func(*ast.CallExpr) bool { return true })
+	if len(g.Blocks) == 0 {
+		return false
+	}
+	seen := map[int32]bool{}
+	ok := true
+	var dfs func(b *cfg.Block)
+	dfs = func(b *cfg.Block) {
+		if !ok || seen[b.Index] {
+			return
+		}
+		seen[b.Index] = true
+		for _, n := range b.Nodes {
+			if pred(n) {
+				return
+			}
+		}
+		if len(b.Succs) == 0 {
+			if len(b.Nodes) > 0 {
+				if es, isES := b.Nodes[len(b.Nodes)-1].(*ast.ExprStmt); isES {
+					if call, isCall := es.X.(*ast.CallExpr); isCall {
+						if id, isID := call.Fun.(*ast.Ident); isID && id.Name == "panic" {
+							return
+						}
+					}
+				}
+			}
+			ok = false
+			return
+		}
+		for _, sc := range b.Succs {
+			dfs(sc)
+		}
+	}
+	dfs(g.Blocks[0])
+	return ok
+}
+
 var arityRe = regexp.MustCompile(`^ro\.(CombineLatestWith|ZipWith)([0-9]+)$`)
 
 // ARITY: the fixed-arity families agree with their own arity.
@@ -865,6 +1091,24 @@ func verifControlEarlyOuterComplete[T any]() func(Observable[Observable[T]]) Obs
 	}
 }
 
+func verifControlCompleteLost[T any]() func(Observable[T]) Observable[int] {
+	return func(source Observable[T]) Observable[int] {
+		return NewUnsafeObservableWithContext(func(subscriberCtx context.Context, destination Observer[int]) Teardown {
+			n := 0
+			sub := source.SubscribeWithContext(subscriberCtx, NewObserverWithContext(
+				func(ctx context.Context, value T) { n++ },
+				destination.ErrorWithContext,
+				func(ctx context.Context) {
+					if n > 0 {
+						destination.NextWithContext(ctx, n)
+						destination.CompleteWithContext(ctx)
+					}
+				}))
+			return sub.Unsubscribe
+		})
+	}
+}
+
 func verifControlPrematureRelease[T, S any](other Observable[S]) func(Observable[T]) Observable[T] {
 	return func(source Observable[T]) Observable[T] {
 		return NewObservableWithContext(func(subscriberCtx context.Context, destination Observer[T]) Teardown {
@@ -887,13 +1131,34 @@ func C05() *check.Property {
 		Title:    "Multi-source operators honour every arrival order of their inputs",
 		Patterns: CorePatterns,
 		Scope:    []string{ro},
-		Rules:    []check.Rule{ruleErrPropagation(), ruleArity(), ruleNoPrematureRelease(), ruleRaceLateLoser(), ruleComposition(), ruleSequentialInnerGuard(), ruleOuterCompleteWaitsInner()},
+		Rules:    []check.Rule{ruleErrPropagation(), ruleArity(), ruleNoPrematureRelease(), ruleRaceLateLoser(), ruleComposition(), ruleSequentialInnerGuard(), ruleOuterCompleteWaitsInner(), ruleTerminalPropagation(), ruleObservableParamUsed()},
 		Explanation: "Narrow structural claim. Arrival orders are run-time histories and are NOT decided. Two necessary conditions are: ERR-PROPAGATION — 'an error from any source ends the output at once': for every upstream subscribe site of every operator " +
 			"(multi-source ones included) the observer's error slot reaches an Error notification to the destination, or the operator's definition consumes the error (listed with reasons); partial observers that swallow errors are reported. NO-PREMATURE-RELEASE — 'nothing is lost, completion comes when the definition says': inside a notification slot of one source the other sources are unsubscribed only on paths that also terminate the output. ARITY — the fixed-arity " +
 			"CombineLatestWithK/ZipWithK families subscribe K+1 distinct sources, build K+1-tuples from K+1 distinct variables and (CombineLatest) use only counter constants consistent with K+1 sources.",
 		NotDecided:  "the output assigned to each interleaving (ordering, completion timing, loss/duplication) for merge, concat, combine-latest, zip, race, buffer/window/sample/throttle-when, group-by, flat-map — in particular ZipAll's early outer completion (DESIGN.md section 7) is outside these rules.",
 		Assumptions: []string{"the destination's subscriber closes on the first terminal notification (C01) and its teardown releases the other sources (C03)"},
-		Floors:      map[string]int{"sites_checked": 140, "sites_of_multi_source_operators": 50, "sibling_releases_in_slots": 30},
+		Floors:      map[string]int{"sites_checked": 140, "sites_of_multi_source_operators": 50, "sibling_releases_in_slots": 30, "complete_slots_checked": 120},
 		Controls:    map[string]string{"zz_verif_controls_c05.go": roControl(controlsC05)},
 	}
+}
+
+// sourceParamName names the subscribe site by the observable parameter it subscribes (directly or wrapped in a call).
+func sourceParamName(s *model.SubSite) string {
+	if s.Source != nil && s.Source.Kind == model.AVParam && s.Source.Param != nil {
+		return s.Source.Param.Name()
+	}
+	name := ""
+	if s.SourceExpr != nil {
+		ast.Inspect(s.SourceExpr, func(x ast.Node) bool {
+			if id, ok := x.(*ast.Ident); ok && name == "" {
+				if v, ok := objOf(s.Pkg.TypesInfo, id).(*types.Var); ok && !v.IsField() {
+					if _, isSig := v.Type().Underlying().(*types.Signature); !isSig {
+						name = v.Name()
+					}
+				}
+			}
+			return name == ""
+		})
+	}
+	return name
 }
